@@ -464,6 +464,8 @@ def counter_dfa(rng):
     n = rng.randint(4, 9)
     names = rng.choice([['q%d' % i for i in range(n)], ['s%d' % (i * 7 % 10 + i) for i in range(n)], list('ABCDEFGHIJ')[:n],
                         ['q%d' % (i + 5) for i in range(n)]])
+    if rng.random() < 0.6:     # random names: a different iteration order of the state set in (nearly) every case
+        names = ['%s%s%d' % (rng.choice('pqrstuvw'), rng.choice('abcdefgh'), rng.randint(0, 99)) for _ in range(n)]
     names = list(dict.fromkeys(names))
     if len(names) < n:
         names = ['q%d' % i for i in range(n)]
